@@ -2,6 +2,7 @@ package sim
 
 import (
 	"bytes"
+	"encoding/binary"
 	"fmt"
 	"net/url"
 	"os"
@@ -545,6 +546,15 @@ func genStubOrigin(r *Run, g *originGen) *stubOrigin {
 	}
 	lead := mkStream("main", container)
 	o.streams = append(o.streams, lead)
+	// in a quarter of the origins every unit of a track has the same size, so that segments (and byte ranges) of
+	// equal length occur
+	uniform := T.Chance(1, 4)
+	sizeOf := func(choices ...int) int {
+		if uniform {
+			return choices[0]
+		}
+		return choices[T.Intn(len(choices))]
+	}
 	tid := 1
 	addVideo := func(st *sStream) {
 		kind := "h264"
@@ -576,7 +586,7 @@ func genStubOrigin(r *Run, g *originGen) *stubOrigin {
 				// B-frame style presentation offsets: pts >= dts
 				u.pts = u.dts + []int64{1, 3, 0, 1}[i%4]*frameDur90
 			}
-			u.data, u.payload = buildVideoUnit(kind, t.id, i, key, p, key, Pick(T, 12, 40, 150))
+			u.data, u.payload = buildVideoUnit(kind, t.id, i, key, p, key, sizeOf(12, 40, 150))
 			t.units = append(t.units, u)
 		}
 		st.tracks = append(st.tracks, t)
@@ -626,9 +636,9 @@ func genStubOrigin(r *Run, g *originGen) *stubOrigin {
 			u := &sUnit{dts: dts, pts: dts, dur: dur, key: true}
 			var pl []byte
 			if kind == "opus" {
-				pl, _ = opusPacket(19, t.id, i, Pick(T, 12, 40))
+				pl, _ = opusPacket(19, t.id, i, sizeOf(12, 40))
 			} else {
-				pl = taggedPayload(t.id, i, Pick(T, 12, 40, 90))
+				pl = taggedPayload(t.id, i, sizeOf(12, 40, 90))
 			}
 			u.data, u.payload = [][]byte{pl}, pl
 			// which segment: by time relative to the leading base
@@ -756,6 +766,37 @@ func genStubOrigin(r *Run, g *originGen) *stubOrigin {
 		explicit := T.Chance(1, 2)
 		perFile := Pick(T, 1<<30, 1<<30, 1, 2, 3) // segments packed into one resource
 		st.blobs = map[string][]byte{}
+		if useBR && T.Chance(1, 2) {
+			// byte ranges of equal length: every segment is padded to the longest one (MPEG-TS: null packets;
+			// fMP4: a trailing free box)
+			target := 0
+			for _, sg := range st.segs {
+				if len(sg.body) > target {
+					target = len(sg.body)
+				}
+			}
+			if st.container != "ts" {
+				target += 8
+			}
+			for _, sg := range st.segs {
+				pad := target - len(sg.body)
+				if st.container == "ts" {
+					for ; pad >= 188; pad -= 188 {
+						pk := make([]byte, 188)
+						pk[0], pk[1], pk[2], pk[3] = 0x47, 0x1f, 0xff, 0x10
+						for i := 4; i < 188; i++ {
+							pk[i] = 0xff
+						}
+						sg.body = append(sg.body, pk...)
+					}
+				} else if pad >= 8 {
+					box := make([]byte, pad)
+					binary.BigEndian.PutUint32(box, uint32(pad))
+					copy(box[4:], "free")
+					sg.body = append(sg.body, box...)
+				}
+			}
+		}
 		for _, sg := range st.segs {
 			name := fmt.Sprintf("%s_%d%s", st.name, sg.idx, ext)
 			switch uriStyle {
